@@ -33,7 +33,8 @@ DRIVERS = ["remap"]
 THEOREMS = ["C15_comparator_sound", "C15_print_parse", "C15_decline_safe", "C15_truncation_safe",
             "C15_partial_pairs_decline", "C15_shortcut_writes", "C15_remap_field_only", "C15_metadata_start",
             "C15_remap_scoped_base_only", "C15_remap_scoped_no_divider", "C15_remap_note_scoped",
-            "C15_remap_base_only", "C15_remap_note_base_only", "C15_remap_unscoped_refuted", "C15_nonvacuous"]
+            "C15_remap_base_only", "C15_remap_note_base_only", "C15_remap_unscoped_refuted", "C15_meta_header",
+            "C15_meta_root_refuted", "C15_meta_no_exit_refuted", "C15_nonvacuous"]
 CLAIM = {
     "text": "Partial proof + system-level differential oracle. Proved (closed, all byte strings): the comparator's "
             "scanning loop answers `match` on a printed diff-tree output iff no pair has a record (and the pathspec-"
@@ -369,6 +370,8 @@ def scenario(args):
         untracked_only = kind.endswith("untracked_only")
         ai_files = tracked[:-1] if untracked_only else tracked
         human_only = tracked[-1] if untracked_only else None
+        base_commit = simA.head()
+        base_tree = simA.realgit("rev-parse", "HEAD^{tree}")[1].strip()
         # ---- feature branch
         w.git("switch", "-q", "-c", "feature")
         for k in range(ncom):
@@ -384,7 +387,14 @@ def scenario(args):
                 w.op_edit(actor="H", path=human_only, region="bottom", kinds=("ins",))
             if r.chance(1, 4):
                 w.op_edit(actor="H", path=r.pick(others), region="bottom", kinds=("ins",))
-            w.op_commit()
+            # every other message carries pasted commit headers in its BODY (valid oids of an existing tree / commit):
+            # the comparator must still be handed the commit's real tree
+            msg = None
+            if opts.get("pasted", idx % 4 < 2):
+                msg = (f"c{k} with pasted headers\n\n$ git cat-file -p\ntree {base_tree}\nparent {base_commit}\n"
+                       f"author A U Thor <a@example.com> 1 +0000\n\ntree {base_tree}\n")
+                res["info"]["pasted_headers"] = True
+            w.op_commit(msg)
         originals = _rev_list(simA, "main..feature")
         touched = sorted(_ai_touched(simA, originals) & set(ai_files))
         res["info"]["touched"] = touched
@@ -814,6 +824,48 @@ def remap_oracle(note, att, full, target):
     return True, ""
 
 
+MSG_LINES = ["subject line", "", "tree {x}", "parent {y}", "tree  {x}  ", "tree {x}\r", "parent {y}\u00a0", "author Someone <s@e> 5 +0100",
+             "committer C <c@e> 6 +0000", "tree", "tree ", "parent ", "treehouse {x}", " tree {x}", "Tree {x}", "tree view added",
+             "parenthesis", "\u00e9\u65e5\u672c", "encoding latin1", "gpgsig x", "tree\t{x}", "tree {x} trailing words"]
+
+
+def gen_commit_object(r):
+    """-> (kind, text, expected (tree, parent|None) or None when the object is not a well-formed commit)"""
+    kind = r.weighted([(55, "child"), (20, "root"), (10, "merge"), (15, "malformed")])
+    oid = lambda: "".join(r.pick(HEXD) for _ in range(40))
+    t, x, y = oid(), oid(), oid()
+    parents = {"child": 1, "root": 0, "merge": r.range(2, 3)}.get(kind, r.range(0, 2))
+    ps = [oid() for _ in range(parents)]
+    hdr = [f"tree {t}"] + [f"parent {p}" for p in ps] + ["author A U Thor <a@example.com> 1700000000 +0000",
+                                                          "committer C O Mitter <c@example.com> 1700000001 +0000"]
+    if r.chance(1, 5):
+        hdr.append("encoding UTF-8")
+    if r.chance(1, 6):
+        hdr += ["gpgsig -----BEGIN PGP SIGNATURE-----", " ", " tree " + x, " -----END PGP SIGNATURE-----"]
+    body = [l.format(x=x, y=y) for l in (r.pick(MSG_LINES) for _ in range(r.range(0, 6)))]
+    eol = "\n"
+    text = eol.join(hdr) + eol + eol + eol.join(body) + (eol if body and r.chance(3, 4) else "")
+    expected = (t, ps[0] if ps else None)
+    if kind == "malformed":
+        m = r.weighted([(2, "no_tree"), (2, "parent_first"), (2, "empty_tree"), (1, "empty"), (2, "no_blank"), (2, "crlf"), (1, "dup_tree")])
+        expected = None
+        if m == "no_tree":
+            text = eol.join(hdr[1:]) + eol + eol + eol.join(body)
+        elif m == "parent_first":
+            text = eol.join([f"parent {y}", f"tree {t}"] + hdr[1:]) + eol + eol + eol.join(body)
+        elif m == "empty_tree":
+            text = eol.join(["tree "] + hdr[1:]) + eol + eol + eol.join(body)
+        elif m == "empty":
+            text = ""
+        elif m == "no_blank":
+            text = eol.join(hdr + body)
+        elif m == "crlf":
+            text = text.replace("\n", "\r\n")
+        else:
+            text = eol.join([f"tree {t}", f"tree {x}"] + hdr[1:]) + eol + eol + eol.join(body)
+    return kind, text, expected
+
+
 def _mk_cmp_repo(scratch):
     sim = Sim(scratch, "c15-cmp-repo", mode="plain")
     os.makedirs(sim.repo, exist_ok=True)
@@ -930,6 +982,56 @@ def run(ctx):
     cov["comparator_cases"] = {"structured": len(struct), "malformed": len(mal), "shapes": shape_hist,
                                "malformed_kinds": mal_hist,
                                "first_delta_pair_by_npairs(n:k, k=0 none)": dict(sorted(first_delta_hist.items())[:40])}
+
+    # =============================================================== (2) in-process: commit-object header scan
+    early = "Definition meta_early_exit : bool := true." in gen
+    obligations.append(("fact: the header scan of load_commit_metadata_batch stops once the tree and the first parent are known "
+                        "(GenRemap.meta_early_exit = true)", early, "" if early else "the early exit is gone"))
+    n_meta = 600 if q else 12000
+    mcases, mk_hist = [], {}
+    for i in range(n_meta):
+        rr = r.fork(f"co{i}")
+        objs = [gen_commit_object(rr) for _ in range(rr.weighted([(60, 1), (25, 2), (15, 4)]))]
+        for o in objs:
+            mk_hist[o[0]] = mk_hist.get(o[0], 0) + 1
+        mcases.append((f"co{i}", objs))
+    body = [(i, C.sx([C.cps(o[1]) for o in objs])) for i, objs in mcases]
+    impl = C.run_cases(C.VHARNESS, "c15-meta", body)
+    model = C.run_cases(C.driver_path("remap"), "c15-meta", body) if ctx.model_ok else {}
+    n_meta_objs = n_meta_k6 = 0
+    for i, objs in mcases:
+        a = impl.get(i)
+        if a is None or a in ("panic", "err"):
+            violations.append((f"load_commit_metadata_batch failed ({a}) on generated commit objects",
+                               {"kind": "meta", "objects": [o[1] for o in objs]}))
+            continue
+        xa = C.sx_parse_many(a)[0]
+        if ctx.model_ok:
+            xm = C.sx_parse_many(model.get(i, "()"))
+            if not xm or xm[0] != xa:
+                # identical objects in one batch share an id; compare only when the texts are distinct
+                if len(set(o[1] for o in objs)) == len(objs):
+                    mism.append(f"{i}: header scan differs: model {str(xm[:1])[:80]} impl {str(xa)[:80]}")
+        for o, got in zip(objs, xa):
+            kind, text, expected = o
+            distinct.add(("meta", text))
+            n_meta_objs += 1
+            if expected is None or got == "absent":
+                continue
+            g = (C.uncps(got[0]), C.uncps(got[1][0]) if got[1] else None)
+            if g != expected:
+                msg_lines = text.split("\n\n", 1)[1].split("\n") if "\n\n" in text else []
+                root_k6 = expected[1] is None and any(l.startswith(("tree ", "parent ")) for l in msg_lines)
+                if root_k6:
+                    n_meta_k6 += 1
+                    known("C15-K6 header scan of a ROOT commit object (no parent header) runs on through the message: a body line "
+                          "starting with 'tree ' / 'parent ' replaces the tree / invents a parent handed to the comparator")
+                else:
+                    violations.append((f"load_commit_metadata_batch returns {g} for a {kind} commit whose header says {expected}: "
+                                       "the message was read as headers",
+                                       {"kind": "meta", "object": text, "expected": list(expected), "got": list(g)}))
+    cov["commit_object_cases"] = {"batches": len(mcases), "objects": n_meta_objs, "kinds": mk_hist,
+                                  "oracle_failures_in_K6": n_meta_k6}
 
     # =============================================================== (2) in-process: remap
     n_notes = 2500 if q else 60000
@@ -1087,8 +1189,11 @@ def run(ctx):
     obligations.append(("tie:correspondence Model/Remap.v vs the real comparator inputs/decisions and the notes written by the "
                         "shortcut (system level)", ctx.model_ok and not sys_mism, "; ".join(sys_mism[:3])))
     obligations.append(("coverage: the shortcut fired in generated rewrites", n_fired > 0, f"{n_fired}"))
+    n_pasted_decl = sum(1 for r_ in res if "error" not in r_ and r_["info"].get("pasted_headers") and r_["info"].get("fired") is False)
+    obligations.append(("coverage: ranges whose commit messages carry pasted tree/parent headers and whose tracked blobs differ "
+                        "were run (the comparator must decline there)", n_pasted_decl > 0, f"{n_pasted_decl}"))
     cov.update({
-        "evaluations": len(struct) + len(mal) + len(notes) + len(res),
+        "evaluations": len(struct) + len(mal) + len(notes) + len(res) + n_meta_objs,
         "distinct_nontrivial": len(distinct),
         "rule": "comparator: printed outputs (1-40 pairs, M/A/D/T/R/C/U records, paths with blanks, newlines, colons, non-UTF-8) "
                 "limited to a tracked set, plus mutated outputs; remap: generated notes (pretty/compact/CRLF JSON, marker text in "
